@@ -75,21 +75,18 @@ pub fn parse_datetime(s: &str) -> Result<(NaiveDateTime, NaiveDateTime), String>
                     let start = date
                         .naive_local()
                         .with_hour(hour_start)
-                        .unwrap()
-                        .with_minute(min_start)
-                        .unwrap()
-                        .with_second(sec_start)
-                        .unwrap();
+                        .and_then(|dt| dt.with_minute(min_start))
+                        .and_then(|dt| dt.with_second(sec_start));
                     let finish = date
                         .naive_local()
                         .with_hour(hour_finish)
-                        .unwrap()
-                        .with_minute(min_finish)
-                        .unwrap()
-                        .with_second(sec_finish)
-                        .unwrap();
+                        .and_then(|dt| dt.with_minute(min_finish))
+                        .and_then(|dt| dt.with_second(sec_finish));
 
-                    Ok((start, finish))
+                    match (start, finish) {
+                        (Some(start), Some(finish)) => Ok((start, finish)),
+                        _ => Err("Error parsing date/time value: ".to_string() + s),
+                    }
                 }
                 _ => Err("Error converting date/time to local: ".to_string() + s),
             }
@@ -119,12 +116,20 @@ pub fn parse_datetime(s: &str) -> Result<(NaiveDateTime, NaiveDateTime), String>
                     _ => Err("Error parsing date/time value: ".to_string() + s),
                 }
             } else if s.len() >= 2 && (s.starts_with("+") || s.starts_with("-")) {
-                let days = s.parse::<i64>().unwrap();
-                let date = Local::now().date_naive() + Duration::days(days);
-                let start = date.and_hms_opt(0, 0, 0).unwrap();
-                let finish = date.and_hms_opt(23, 59, 59).unwrap();
+                let date = s
+                    .parse::<i64>()
+                    .ok()
+                    .and_then(Duration::try_days)
+                    .and_then(|days| Local::now().date_naive().checked_add_signed(days));
+                match date {
+                    Some(date) => {
+                        let start = date.and_hms_opt(0, 0, 0).unwrap();
+                        let finish = date.and_hms_opt(23, 59, 59).unwrap();
 
-                Ok((start, finish))
+                        Ok((start, finish))
+                    }
+                    None => Err("Error parsing date/time value: ".to_string() + s),
+                }
             } else {
                 Err("Error parsing date/time value: ".to_string() + s)
             }
